@@ -34,3 +34,48 @@ Proof.
   - apply guard_nil, Nat.eqb_eq in G3. exact G3.
 Qed.
 Print Assumptions C06_checker_sound.
+
+(* Part 2: universal theorems over the generator model (the graph builder), for every size.
+   (a) an auto-connected m x n router array adds exactly the four-neighbour links, each in both
+       directions, with compass ports (West/East between (i,j) and (i-1,j), South/North between (i,j)
+       and (i,j-1));
+   (b) a connection pairs its source and destination selections position by position when they have the
+       same length; with allow_multi and |srcs| = k*|dsts| destination j gets the contiguous group
+       srcs[j*k .. (j+1)*k), symmetrically for |dsts| = k*|srcs|; all other length combinations are
+       rejected;
+   (c) every link of every built graph has its mirror link (build_ginv, stated under C05);
+   the selections themselves are C18_holds. *)
+From FV Require Import Graph Desc Build BuildProofs ConnProofs.
+
+Definition C06_model_statement : Prop :=
+  (forall g name m n t desc g', add_nodes_as_array g name [m; n] t desc true = Ok g' ->
+     g_edges g' = g_edges g ++ flat_map (array_links name) (grid_idx m n)) /\
+  (forall name m n e, In e (flat_map (array_links name) (grid_idx m n)) <->
+     exists i j, 0 <= i < m /\ 0 <= j < n /\
+       ((0 < i /\ (e = mk_link (full_name name [i; j]) (full_name name [i - 1; j]) (Some dir_W) (Some dir_E) \/
+                   e = mk_link (full_name name [i - 1; j]) (full_name name [i; j]) (Some dir_E) (Some dir_W))) \/
+        (0 < j /\ (e = mk_link (full_name name [i; j]) (full_name name [i; j - 1]) (Some dir_S) (Some dir_N) \/
+                   e = mk_link (full_name name [i; j - 1]) (full_name name [i; j]) (Some dir_N) (Some dir_S))))) /\
+  (forall srcs dsts multi pairs, pair_up srcs dsts multi = Ok pairs ->
+     let ns := length srcs in let nd := length dsts in
+     (ns = nd /\ pairs = zip srcs dsts) \/
+     (multi = true /\ exists k, (2 <= k)%nat /\ ns = (k * nd)%nat /\ length pairs = ns /\
+        forall j s, nth_error srcs j = Some s -> exists t, nth_error dsts (j / k) = Some t /\ nth_error pairs j = Some (s, t)) \/
+     (multi = true /\ exists k, (2 <= k)%nat /\ nd = (k * ns)%nat /\ length pairs = nd /\
+        forall j t, nth_error dsts j = Some t -> exists s, nth_error srcs (j / k) = Some s /\ nth_error pairs j = Some (s, t))) /\
+  (forall srcs dsts multi, length srcs <> length dsts ->
+     (multi = false \/ length srcs = 0%nat \/ length dsts = 0%nat \/
+      (Z.of_nat (length srcs) mod Z.of_nat (length dsts) <> 0 /\ Z.of_nat (length dsts) mod Z.of_nat (length srcs) <> 0)) ->
+     exists e, pair_up srcs dsts multi = Err e).
+
+Theorem C06_model_holds : C06_model_statement.
+Proof. exact (conj array_edges (conj mesh_links_iff (conj pair_up_spec pair_up_rejects))). Qed.
+Print Assumptions C06_model_holds.
+
+Example C06_nonvacuous :
+  match add_nodes_as_array g_empty "r" [2; 3] NRouter "r" true with
+  | Ok g => Nat.eqb (length (g_edges g)) 14 && Nat.eqb (length (g_nodes g)) 6
+  | Err _ => false
+  end = true /\
+  pair_up ["a"; "b"; "c"; "d"] ["x"; "y"] true = Ok [("a", "x"); ("b", "x"); ("c", "y"); ("d", "y")].
+Proof. vm_compute. auto. Qed.
